@@ -151,6 +151,17 @@ def malformed_heads(rng, n):
         b"GET ? HTTP/1.1", b"GET # HTTP/1.1", b"GET /a#f?x HTTP/1.1", b"GET http://h/p?q=1 HTTP/1.1", b"GET x HTTP/1.1", b"GET :80 HTTP/1.1",
     ]
     outs += fixed
+    # targets whose validity is entirely QUrl's business: authority forms with odd hosts/ports/userinfo, scheme-like prefixes.
+    # Some are valid, some are not: the tabulated QUrl answer decides, and the parser must agree with it in both directions.
+    odd = [b"//", b"///", b"//..", b"//../secret.txt", b"//-/index.html", b"//a..b/upload", b"//a-/", b"//-a/", b"//a_b/", b"//A/x",
+           b"//1.2.3/", b"//1.2.3.4.5/", b"//.a/", b"//a./", b"//~", b"//a~b/", b"//a:/", b"//:80/", b"//a:65536/", b"//a:0080/p",
+           b"//u@h/", b"//@/", b"//h/%", b"//h/a%2Fb", b"/:", b"x:/y", b"a:b", b"1:b", b"/a:b", b"//h?q", b"//h#f", b"//[::1]/", b"//[v1.x]/",
+           b"//xn--/", b"//a.b-/c", b"//a--b/", b"//0x7f.1/"]
+    for t in odd:
+        outs.append(b"GET " + t + b" HTTP/1.1")
+    for _ in range(max(0, n // 8)):
+        host = rng.bytes(rng.range(0, 6), b"ab.-_~:@0189Z")
+        outs.append(rng.choice(METHODS)[0] + b" //" + host + rng.choice([b"", b"/", b"/p", b"/p?q=1"]) + b" HTTP/1.1")
     for m, _ in METHODS:
         outs.append(m + b" " + base_t + b" HTTP/1.1")
         outs.append(m[:-1] + b" " + base_t + b" HTTP/1.1")
